@@ -169,6 +169,8 @@ func (rl *ruleLoader) ruleValue(lex lexeme.LexEvent) {
 
 	switch ruleName {
 	case "or":
+		// A clash is reported at the value: the other types list may be that of
+		// a shortcut (@a | @b), not a second "or" rule.
 		rl.node.AddConstraint(constraint.NewTypesList(jschema.RuleASTNodeSourceManual))
 		rl.node.AddConstraint(constraint.NewOr(jschema.RuleASTNodeSourceManual)) // Used for compile-time checking.
 		rl.embeddedValueLoader = newOrValueLoader(rl.node, rl.rootSchema, rl.rules)
@@ -177,14 +179,14 @@ func (rl *ruleLoader) ruleValue(lex lexeme.LexEvent) {
 
 	case "enum":
 		enumConstraint := constraint.NewEnum()
-		rl.node.AddConstraint(enumConstraint)
+		rl.addConstraint(enumConstraint)
 		rl.embeddedValueLoader = newEnumValueLoader(enumConstraint, rl.rules)
 		rl.stateFunc = rl.loadEmbeddedValue
 		rl.stateFunc(lex)
 
 	case "allOf":
 		allOfConstraint := constraint.NewAllOf()
-		rl.node.AddConstraint(allOfConstraint)
+		rl.addConstraint(allOfConstraint)
 		rl.embeddedValueLoader = newAllOfValueLoader(allOfConstraint)
 		rl.stateFunc = rl.loadEmbeddedValue
 		rl.stateFunc(lex)
@@ -198,12 +200,19 @@ func (rl *ruleLoader) ruleValue(lex lexeme.LexEvent) {
 	}
 }
 
+// addConstraint adds the constraint of the rule to the node. A repeated rule is
+// reported at its name, like an unknown one.
+func (rl *ruleLoader) addConstraint(c constraint.Constraint) {
+	defer lexeme.CatchLexEventError(rl.ruleNameLex)
+	rl.node.AddConstraint(c)
+}
+
 func (rl *ruleLoader) ruleValueLiteral(ruleValue lexeme.LexEvent) {
 	if ruleValue.Type() != lexeme.LiteralEnd {
 		panic(errors.ErrLoader)
 	}
 	c := constraint.NewConstraintFromRule(rl.ruleNameLex, ruleValue.Value(), rl.node.Value()) // can panic
-	rl.node.AddConstraint(c)
+	rl.addConstraint(c)
 
 	rl.stateFunc = rl.ruleValueEnd
 }
